@@ -306,6 +306,12 @@ class Ctx:
         self.obligations = names
         if ok:
             ax = axiom_audit(self.pid)
+            if any(ax.get(n) is None for n in names):
+                # a concurrent build of the same package can make the audit read half-written files: rebuild and retry once
+                time.sleep(2.0)
+                ok2, _ = lake_build(targets)
+                if ok2:
+                    ax = axiom_audit(self.pid)
             for n in names:
                 a = ax.get(n)
                 if a is None:
